@@ -483,6 +483,14 @@ type TimePrice struct {
 	Last   *big.Int
 }
 
+// PriceReward returns the price-derived block reward 350 * (r1/r0)^(1/4) BIP in pip for the
+// given BIP/USDT pool reserves (the same expression UpdatePriceFix evaluates).
+func PriceReward(r0, r1 *big.Int) *big.Int {
+	fNew := big.NewRat(1, 1).SetFrac(r1, r0)
+	priceCount, _ := new(big.Float).Mul(new(big.Float).Mul(math.Pow(new(big.Float).SetRat(fNew), big.NewFloat(0.25)), big.NewFloat(350)), big.NewFloat(1e18)).Int(nil)
+	return priceCount
+}
+
 func (appDB *AppDB) UpdatePriceFix(t time.Time, r0, r1 *big.Int) (reward, safeReward *big.Int) {
 	tOld, reserve0, reserve1, last, off := appDB.GetPrice()
 
